@@ -41,7 +41,7 @@ ASSUMPTIONS = [
     "reference 'definition': 1/E(z) = (om(1+z)^3 + ok(1+z)^2 + ol)^-1/2, Dc = DH int 1/E, Dm = sinh/sin/identity "
     "of Dc (Hogg eq. 16), Da = Dm/(1+zmax), Dl = Dm(1+zmax), distmod = 5 log10(Dl(0,z) 1e5), dV = DH (1+z)^2 "
     "Da(0,z)^2 / E (eq. 28), V = 4 pi int dV, Sigma_crit^-1 = K Da(0,zl) Da(zl,zs) / Da(0,zs); DH = 299792.458/H0. "
-    "Evaluated in 80-bit long double by composite 24-point Gauss-Legendre (panel width <= 0.25); the check aborts "
+    "Evaluated in 80-bit long double by composite 24-point Gauss-Legendre (panel width <= 0.5); the check aborts "
     "(harness error) unless a second resolution (16-point, more panels) agrees to 1e-13, scipy.integrate.quad "
     "agrees to 1e-10, Hogg's closed forms for V (eq. 29 family) agree to 1e-10 and, for omega_k > 0, Hogg eq. 19 "
     "for Da(z1,z2) agrees to 1e-12",
@@ -176,7 +176,7 @@ class Model(object):
         return (f1 * _W5 * self.ezinv(_X5 * f1 + f2)).sum(axis=-1)
 
     def _rule(self, which, width):
-        panels = max(2, int(math.ceil(abs(float(width)) / 0.25)))
+        panels = max(2, int(math.ceil(abs(float(width)) / 0.5)))
         if which == "B":
             panels = panels + 3
         k = (which, panels)
@@ -943,8 +943,15 @@ def main(ctx):
             return ("F", bits(r))
         return r
 
+    OBS_NAMES = ["H0()", "DH()", "flat()", "omega_m()", "omega_l()", "omega_k()"] + [
+        "%s%r" % (m, a) for m, a in BATTERY]
+
     def observe(c):
-        return (fingerprint(c.__dict__),) + tuple(freeze(v) for v in getters(c)) + battery(c)
+        """(fingerprint of the python state, parameter getters and battery results as plain numbers)"""
+        return (fingerprint(c.__dict__),) + tuple(getters(c)) + tuple(float(getattr(c, m)(*a)) for m, a in BATTERY)
+
+    def obs_key(obs):
+        return (obs[0],) + tuple(bits(v) for v in obs[1:])
 
     fresh_cache = {}
 
@@ -1006,11 +1013,12 @@ def main(ctx):
                 return None
         obs = observe(c)
         base = observe(make(kw))
-        if obs[1:] != base[1:]:
-            rec.fail(hist, "observable state after the history differs from a fresh object: %r vs %r"
-                     % (obs[1:7], base[1:7]))
+        if obs_key(obs)[1:] != obs_key(base)[1:]:
+            i = [bits(x) != bits(y) for x, y in zip(obs[1:], base[1:])].index(True)
+            rec.fail(hist, "observable state after the history differs from a fresh object: %s = %r, fresh %r"
+                     % (OBS_NAMES[i], obs[1 + i], base[1 + i]))
             return None
-        return obs, OPS
+        return obs_key(obs), OPS
 
     hcos = [VEC_COSMO[0], VEC_COSMO[1], VEC_COSMO[2]] + ctx.pick([], [cosmo_kw(0.3, 0.1, (("h", 0.7),), ol=0.7), seed_kw])
     depth = 1 + ctx.pick(2, 3)
